@@ -22,19 +22,36 @@ def parseOp : List String → Option Op
     some (.checkOnly (← toInt? now) (← parseAddr addr) (← dec act))
   | ["throttle", now, addr, act] => do
     some (.throttleOnly (← toInt? now) (← parseAddr addr) (← dec act))
+  -- `par <now> <addr> <action> <n> <mode> <m>`: the mode (how the goroutines are released) is the harness's
+  -- business; the `m` checks that run alongside the failures change nothing (`C17_concurrent_checks_harmless`)
+  | ["par", now, addr, act, n, _mode, _m] => do
+    some (.par (← toInt? now) (← parseAddr addr) (← dec act) (← toNat? n))
   | _ => none
+
+def showList {α : Type} (f : α → String) (pfx : String) (l : List α) : String :=
+  pfx ++ (if l.isEmpty then "-" else ",".intercalate (l.map f))
+
+/-- `<pfx>-` or `<pfx>n1,n2,…` -/
+def parseNats (pfx tok : String) : Option (List Nat) :=
+  if !hasPrefix pfx tok then none else
+  let body := dropS pfx.length tok
+  if body == "-" then some [] else (body.splitOn ",").mapM toNat?
 
 def showOut : Out → String
   | .refused => "refused"
   | .passed => "passed"
   | .delayed ns => s!"delayed {ns}"
   | .none => "none"
+  | .rest p r b ds => s!"rest {p} {r} {if b then 1 else 0} " ++ showList toString "d:" ds
 
 def parseOut : List String → Option Out
   | ["refused"] => some .refused
   | ["passed"] => some .passed
   | ["delayed", ns] => (toNat? ns).map .delayed
   | ["none"] => some .none
+  -- the trailing `r:` token (raw records) is compared with the model's state as text only
+  | ["rest", p, r, b, ds, _recs] => do
+    some (.rest (← toNat? p) (← toNat? r) (b == "1") (← parseNats "d:" ds))
   | _ => none
 
 structure St where
@@ -65,6 +82,10 @@ def step (st : St) (op impl : List String) : St × String × String :=
     let (j', v) := match parseOut impl with
       | some io => st.judge.observe o io
       | none => (st.judge, "na")
-    ({ model := m', judge := j' }, showOut out, v)
+    -- a `par` also shows the records of its key/kind at rest (the model's state itself is compared)
+    let shown := match o with
+      | .par _ addr a _ => showOut out ++ " " ++ showList toString "r:" (m' (throttleKey addr) a)
+      | _ => showOut out
+    ({ model := m', judge := j' }, shown, v)
 
 end SigModel.Driver.C17
